@@ -364,4 +364,15 @@ def _constructors(db, chk, m):
             conc = got if isinstance(got, list) and all(isinstance(x, int) for x in got) else None
             chk.ob(rule, f"{cls}({val!r}) selects by exactly the given value(s)", (conc == want) if conc is not None else None, m.loc(init), found=conc if conc is not None else T.show(to_term(got))[:100], accepted=want,
                    why="dropping or re-ordering values in the constructor (e.g. discarding negative numbers) makes IterationFilter(-1) - the events outside every profiler step - select nothing")
+    # the time-range filter: (start, end) are stored as given (an empty range start == end and the value 0 included)
+    init = m.functions.get("TimeRangeFilter.__init__")
+    if init is not None:
+        ps = [p_ for p_ in H.param_names(init) if p_ != "self"]
+        for val in ((10, 20), (0, 0), (7, 7)):
+            I = Interp(db)
+            selfo = Obj("self", cls=(m, "TimeRangeFilter"))
+            runs = [r for r in I.explore(f"{TF}:TimeRangeFilter.__init__", lambda I: {"self": selfo, ps[0]: PyTuple(list(val))}) if r.raised is None] if len(ps) == 1 else []
+            got = (runs[0].env["self"].attrs.get("time_start"), runs[0].env["self"].attrs.get("time_end")) if len(runs) == 1 and isinstance(runs[0].env.get("self"), Obj) else None
+            chk.ob(rule, f"TimeRangeFilter({val!r}) keeps the range as given", (got == val) if got is not None and all(isinstance(x, int) for x in got) else None, m.loc(init),
+                   found=got if got is None or all(isinstance(x, int) for x in got) else [T.show(to_term(x))[:60] for x in got], accepted=val, why="a widened / narrowed or rejected degenerate range changes which events are 'fully inside'")
     chk.floor(rule, 12)
